@@ -1,6 +1,8 @@
 package main
 
 import (
+	"fmt"
+	"os"
 	"sort"
 	"strings"
 )
@@ -82,62 +84,117 @@ func groundIndexTerms(ts []*Term) map[Sort][]*Term {
 func instantiate(assumes []*Term, goal *Term) ([]*Term, *Term, bool) {
 	g2 := skolemizeGoal(goal)
 	any := g2 != goal
-	all := append(append([]*Term{}, assumes...), g2)
-	if uf := unfoldRec(all, 2); len(uf) > 0 {
-		assumes = append(append([]*Term{}, assumes...), uf...)
-		all = append(all, uf...)
+	// goal a => b: assume a (its existentials skolemized: their witnesses are candidate terms), prove b
+	// (only when the goal needs witnesses; otherwise the implication is left to the solver)
+	var hypSks []*Term
+	for hasExists(g2) && g2.Kind == kApp && g2.Op == "=>" && !g2.hasBV {
+		assumes = append(append([]*Term{}, assumes...), skolemizePositive(g2.Args[0], &hypSks))
+		g2 = skolemizeGoal(g2.Args[1])
 		any = true
 	}
-	cands := groundIndexTerms(all)
-	occs := collectSelOccs(all)
-	inst := func(q *Term) []*Term {
-		if r, ok := instForallTriggers(q, occs, cands); ok {
-			return r // no matching ground term means no instance is relevant
-		}
-		return instForall(q, cands)
+	if uf := unfoldRec(append(append([]*Term{}, assumes...), g2), 2); len(uf) > 0 {
+		assumes = append(append([]*Term{}, assumes...), uf...)
+		any = true
 	}
-	var out []*Term
-	for _, a := range assumes {
-		if a.Kind == kQuant && a.Op == "forall" {
-			any = true
-			out = append(out, inst(a)...)
-			continue
-		}
-		if a.Kind == kApp && a.Op == "and" {
-			changed := false
-			for _, c := range a.Args {
-				if c.Kind == kQuant && c.Op == "forall" {
-					out = append(out, inst(c)...)
-					changed = true
-				} else {
-					out = append(out, c)
-				}
-			}
-			if changed {
-				any = true
-			}
-			continue
-		}
-		out = append(out, a)
-	}
-	// existentials: skolemize the assumed ones, try the resulting constants (and every other ground
-	// index term) as witnesses for the goal's
-	var sks []*Term
-	for i, a := range out {
-		out[i] = skolemizePositive(a, &sks)
-	}
-	if hasExists(g2) {
+	addSk := func(cands map[Sort][]*Term, sks []*Term) {
 		for _, c := range sks {
 			cands[c.Sort] = append(cands[c.Sort], c)
 		}
-		// also arithmetic neighbours of select indices (x+1) appear as ground terms already
-		g3 := witnessGoal(g2, cands)
-		if g3 != g2 {
-			g2 = g3
-			any = true
+	}
+	collectEqClasses(assumes)
+	goalHasEx := hasExists(g2)
+	gcur := g2
+	var out []*Term
+	var sks []*Term
+	for round := 0; round < 2; round++ {
+		all := append(append([]*Term{}, assumes...), gcur)
+		cands := groundIndexTerms(all)
+		addSk(cands, hypSks)
+		addSk(cands, sks)
+		if goalHasEx {
+			witnessOccs = collectSelOccs(all)
+			witnessSks = append(append([]*Term{}, hypSks...), sks...)
+			g3 := witnessGoal(g2, cands)
+			if g3 != g2 {
+				any = true
+			}
+			gcur = g3
+			all = append(append([]*Term{}, assumes...), gcur)
+		}
+		occs := collectSelOccs(all)
+		inst := func(q *Term) []*Term {
+			if r, ok := instForallTriggers(q, occs, cands); ok {
+				return r // no matching ground term means no instance is relevant
+			}
+			return instForall(q, cands)
+		}
+		out = nil
+		for _, a := range assumes {
+			if a.Kind == kQuant && a.Op == "forall" {
+				any = true
+				out = append(out, inst(a)...)
+				continue
+			}
+			if a.Kind == kApp && a.Op == "and" {
+				changed := false
+				for _, c := range a.Args {
+					if c.Kind == kQuant && c.Op == "forall" {
+						out = append(out, inst(c)...)
+						changed = true
+					} else {
+						out = append(out, c)
+					}
+				}
+				if changed {
+					any = true
+				}
+				continue
+			}
+			out = append(out, a)
+		}
+		// existentials: skolemize the assumed ones; their constants become witnesses in the next round
+		var newSks []*Term
+		for k, a := range out {
+			n0 := len(newSks)
+			out[k] = skolemizePositive(a, &newSks)
+			if debugInst && len(newSks) > n0 {
+				fmt.Fprintf(os.Stderr, "  round %d skolem %v from %.200s\n", round, newSks[n0:], a.String())
+			}
+		}
+		if round == 1 {
+			break
+		}
+		if !goalHasEx || len(newSks) == 0 {
+			break
+		}
+		// keep the skolemized instances stable across rounds: treat them as plain assumptions next time
+		sks = append(sks, newSks...)
+		assumes = append(append([]*Term{}, assumes...), onlyGround(out)...)
+	}
+	return out, gcur, any
+}
+
+// onlyGround: instances that no longer contain quantifiers (safe to carry over as plain assumptions).
+func onlyGround(ts []*Term) []*Term {
+	var out []*Term
+	for _, t := range ts {
+		if !hasQuant(t) {
+			out = append(out, t)
 		}
 	}
-	return out, g2, any
+	return out
+}
+
+func hasQuant(t *Term) bool {
+	if t.Kind == kQuant {
+		return true
+	}
+	for _, a := range t.Args {
+		if hasQuant(a) {
+			return true
+		}
+	}
+	return false
 }
 
 func hasExists(t *Term) bool {
@@ -285,6 +342,45 @@ func instForallTriggers(q *Term, occs []selOcc, cands map[Sort][]*Term) ([]*Term
 	if len(trigs) == 0 {
 		return nil, false
 	}
+	// an allocation guard (select G$alloc x) is a poor trigger: it matches every reference in the query. Drop it
+	// when another trigger binds the same variables.
+	{
+		var keep []trig
+		for i, tr := range trigs {
+			if tr.fam == "G$alloc" {
+				covered := false
+				for j, o := range trigs {
+					if i == j || o.fam == "G$alloc" {
+						continue
+					}
+					all := true
+					for _, p := range tr.vars {
+						if p < 0 {
+							continue
+						}
+						has := false
+						for _, q := range o.vars {
+							if q == p {
+								has = true
+							}
+						}
+						if !has {
+							all = false
+						}
+					}
+					if all {
+						covered = true
+						break
+					}
+				}
+				if covered {
+					continue
+				}
+			}
+			keep = append(keep, tr)
+		}
+		trigs = keep
+	}
 	// assignments from matching occurrences
 	var res []*Term
 	done := map[string]bool{}
@@ -305,6 +401,10 @@ func instForallTriggers(q *Term, occs []selOcc, cands map[Sort][]*Term) ([]*Term
 			return
 		}
 		done[key] = true
+		if recordQuant != nil {
+			recordQuant.asgs = append(recordQuant.asgs, append([]*Term{}, asg...))
+			return
+		}
 		b := Subst(q.Args[0], m)
 		if !b.IsTrue() {
 			res = append(res, b)
@@ -327,6 +427,10 @@ func instForallTriggers(q *Term, occs []selOcc, cands map[Sort][]*Term) ([]*Term
 			asg := make([]*Term, len(q.Bound))
 			okM := true
 			for lvl, p := range tr.vars {
+				if p < 0 && lvl < len(tr.gidx) && tr.gidx[lvl] != nil && !groundMayEqual(tr.gidx[lvl], oc.idx[lvl]) {
+					okM = false
+					break
+				}
 				if p >= 0 {
 					val := oc.idx[lvl]
 					if lvl < len(tr.offs) && tr.offs[lvl] != nil {
@@ -368,6 +472,86 @@ func instForallTriggers(q *Term, occs []selOcc, cands map[Sort][]*Term) ([]*Term
 	}
 	return res, true
 }
+
+// instEqClass: equivalence classes of ground terms induced by the top-level equalities of the query being
+// instantiated (set by instantiate, which runs under the discharger lock).
+var instEqClass map[string]string
+var debugInst = os.Getenv("GOWP_DEBUG_INST") == "2"
+
+func eqFind(k string) string {
+	for {
+		p, ok := instEqClass[k]
+		if !ok || p == k {
+			return k
+		}
+		k = p
+	}
+}
+
+func collectEqClasses(assumes []*Term) {
+	instEqClass = map[string]string{}
+	var visit func(t *Term, depth int)
+	visit = func(t *Term, depth int) {
+		if t.Kind != kApp {
+			return
+		}
+		if t.Op == "and" && depth < 3 {
+			for _, a := range t.Args {
+				visit(a, depth+1)
+			}
+			return
+		}
+		if t.Op == "=" && len(t.Args) == 2 && !t.hasBV && t.Args[0].Sort == SInt {
+			a, b := eqFind(t.Args[0].String()), eqFind(t.Args[1].String())
+			if a != b {
+				instEqClass[a] = b
+			}
+		}
+	}
+	for _, a := range assumes {
+		visit(a, 0)
+	}
+}
+
+// groundMayEqual: a ground index of a trigger matches an occurrence's index when they are the same term or
+// known equal by a top-level equality. (Allocation bases that are only conditionally equal are not matched: the
+// instantiated query is then weaker, never stronger.)
+func groundMayEqual(a, b *Term) bool {
+	if same(a, b) {
+		return true
+	}
+	if a.Sort != SInt || b.Sort != SInt {
+		return true
+	}
+	// only distinguish allocation identities (constants), not arithmetic
+	if a.Kind != kConst || b.Kind != kConst {
+		return true
+	}
+	return eqFind(a.String()) == eqFind(b.String())
+}
+
+// triggerMatches: for a one-variable quantifier, the terms its variable takes under trigger matching.
+func triggerMatches(q *Term, occs []selOcc) ([]*Term, bool) {
+	v := q.Bound[0]
+	rec := &recordingQuant{}
+	recordQuant = rec
+	_, ok := instForallTriggers(q, occs, map[Sort][]*Term{})
+	recordQuant = nil
+	if !ok {
+		return nil, false
+	}
+	var out []*Term
+	for _, a := range rec.asgs {
+		if len(a) == 1 && a[0] != nil && a[0].Sort == v.Sort {
+			out = append(out, a[0])
+		}
+	}
+	return out, true
+}
+
+type recordingQuant struct{ asgs [][]*Term }
+
+var recordQuant *recordingQuant
 
 func instForall(q *Term, cands map[Sort][]*Term) []*Term {
 	var res []*Term
@@ -530,6 +714,79 @@ func skolemizePositive(t *Term, consts *[]*Term) *Term {
 
 // witnessGoal replaces existential quantifiers at positive positions of the goal by the finite
 // disjunction over candidate witnesses (a stronger goal: proving it proves the original).
+var witnessOccs []selOcc
+var witnessSks []*Term
+
+// witnessCands: candidate witnesses of one existentially bound variable, driven by the body — indices of the
+// ground reads that the body's reads of the variable can match, the ground bounds the body puts on it, and the
+// skolem constants of assumed existentials. Nil when the body gives no such handle (the caller falls back to
+// all ground index terms).
+func witnessCands(g *Term, vi int) []*Term {
+	v := g.Bound[vi]
+	q := &Term{Kind: kQuant, Op: "forall", Bound: []*Term{v}, Args: g.Args, Sort: SBool, hasBV: g.hasBV}
+	var out []*Term
+	seen := map[string]bool{}
+	add := func(t *Term) {
+		if t == nil || t.hasBV || t.Sort != v.Sort {
+			return
+		}
+		k := t.String()
+		if !seen[k] {
+			seen[k] = true
+			out = append(out, t)
+		}
+	}
+	handle := false
+	if m, ok := triggerMatches(q, witnessOccs); ok {
+		handle = true
+		for _, t := range m {
+			add(t)
+		}
+	}
+	var walk func(t *Term, depth int)
+	walk = func(t *Term, depth int) {
+		if t.Kind != kApp || depth > 4 {
+			return
+		}
+		switch t.Op {
+		case "and", "or", "not", "=>":
+			for _, a := range t.Args {
+				walk(a, depth+1)
+			}
+		case "<=", "<", ">=", ">", "=":
+			if len(t.Args) == 2 {
+				a, b := t.Args[0], t.Args[1]
+				if a.Kind == kBound && a.Op == v.Op && !b.hasBV {
+					handle = true
+					add(b)
+					if v.Sort == SInt && (t.Op == "<" || t.Op == ">") {
+						add(Sub(b, IntLit(1)))
+						add(Add(b, IntLit(1)))
+					}
+				} else if b.Kind == kBound && b.Op == v.Op && !a.hasBV {
+					handle = true
+					add(a)
+					if v.Sort == SInt && (t.Op == "<" || t.Op == ">") {
+						add(Sub(a, IntLit(1)))
+						add(Add(a, IntLit(1)))
+					}
+				}
+			}
+		}
+	}
+	walk(g.Args[0], 0)
+	if !handle {
+		return nil
+	}
+	for _, sk := range witnessSks {
+		add(sk)
+	}
+	if len(out) > 60 {
+		out = out[:60]
+	}
+	return out
+}
+
 func witnessGoal(g *Term, cands map[Sort][]*Term) *Term {
 	switch {
 	case g.Kind == kQuant && g.Op == "exists" && !freeBound(g):
@@ -543,9 +800,12 @@ func witnessGoal(g *Term, cands map[Sort][]*Term) *Term {
 				alts = append(alts, witnessGoal(Subst(g.Args[0], m), cands))
 				return
 			}
-			cs := cands[g.Bound[i].Sort]
-			if len(cs) > 40 {
-				cs = cs[len(cs)-40:]
+			cs := witnessCands(g, i)
+			if cs == nil {
+				cs = cands[g.Bound[i].Sort]
+				if len(cs) > 40 {
+					cs = cs[len(cs)-40:]
+				}
 			}
 			for _, c := range cs {
 				m[g.Bound[i].Op] = c
@@ -558,6 +818,13 @@ func witnessGoal(g *Term, cands map[Sort][]*Term) *Term {
 			return g
 		}
 		return Or(alts...)
+	case g.Kind == kQuant && g.Op == "forall" && !freeBound(g):
+		// a universal at a positive position of the goal: prove it for fresh constants
+		m := map[string]*Term{}
+		for _, v := range g.Bound {
+			m[v.Op] = Fresh("sk$"+trimName(v.Op), v.Sort)
+		}
+		return witnessGoal(Subst(g.Args[0], m), cands)
 	case g.Kind == kApp && g.Op == "and":
 		var cs []*Term
 		for _, a := range g.Args {
@@ -568,4 +835,22 @@ func witnessGoal(g *Term, cands map[Sort][]*Term) *Term {
 		return Implies(g.Args[0], witnessGoal(g.Args[1], cands))
 	}
 	return g
+}
+
+// chainNeeded: more than one quantified assumption means instances of one may provide the ground terms
+// another one needs (e.g. append of a sub-slice): a second instantiation round is worth it.
+func chainNeeded(assumes []*Term) bool {
+	n := 0
+	for _, a := range assumes {
+		if a.Kind == kQuant {
+			n++
+		} else if a.Kind == kApp && a.Op == "and" {
+			for _, c := range a.Args {
+				if c.Kind == kQuant {
+					n++
+				}
+			}
+		}
+	}
+	return n >= 2
 }
